@@ -43,6 +43,46 @@ NEEDS = {
  "C19-m2": ("Context.Abs applies the context to the receiver before the latch check", "NaN-producing operation, then Abs on a receiver whose precision/mode differ from the context's, before Err()"),
  "C20-m1": ("SetBitsExp clamps the raw exponent to [MinExp-1, MaxExp+1] before normalising", "unnormalised mantissa with exp >= MaxExp+2 whose true value is representable (leading zero digits >= exp-MaxExp)"),
  "C20-m2": ("BitsExp returns the stale mantissa of zeros and infinities", "receiver that held a non-zero value and then became zero/Inf; BitsExp, or SetBitsExp(x.BitsExp())"),
+ "C01-r4m1": ("uadd skips the alignment for operands more than 2^31 digits apart and calls setExpAndRound(exp, 1) on the larger one", "gap > MaxInt32 digits with a mantissa that already fits the precision: round returns before looking at the sticky bit, away-from-zero modes one ulp short (2.6 GB, 6 s per case; thorough tier)"),
+ "C01-r4m2": ("uquo takes the zero-extended dividend from the buffer pool (not zeroed) once it has 2^20 words", "Quo at a precision of 19.9 million digits or more, after an earlier Quo of that class with a longer dividend mantissa"),
+ "C02-r4m1": ("uadd shortcut for operands more than 2^28 digits apart drops the sticky bit", "exponent gap > 268 million digits: Acc() Exact for an inexact sum, directed modes also one ulp short"),
+ "C02-r4m2": ("scan's exact-scaling bound for positive binary exponents narrowed to 4*prec+64", "decimal mantissa divisible by a high power of five with a matching p exponent (5^270 p272 = 4e270): takes the rounded-power path"),
+ "C03-r4m1": ("FMA zero-addend branch applies the exact-zero sign rule also to products that underflow to an inexact zero", "finite x, y with the product exponent below MinExp, u = +-0 of the opposite sign"),
+ "C03-r4m2": ("FMA forms the exact product directly and adds the exponents in int32", "product exponent outside [MinExp, MaxExp] with a finite non-zero addend: wraps by 2^32 instead of overflowing/underflowing (inside the input zone of known finding F-03c)"),
+ "C04-r4m1": ("FMA zero-addend branch applies the exact-zero sign rule also to products that underflow", "FMA(-tiny, tiny, +0): +0 instead of -0"),
+ "C04-r4m2": ("SetFloat64 decodes the bits itself and recognises quiet NaNs only", "signalling NaN bit patterns: no ErrNaN, receiver becomes an infinity"),
+ "C05-r4m1": ("Sqrt cuts the scaled operand to about 2*(prec+2) digits before the exact-root comparison", "x = s^2 + delta with short s and delta more than ~40 zeros below: sticky digit lost, round-up modes and exact ties wrong"),
+ "C05-r4m2": ("Sqrt halves the exponent in int32", "operand exponent exactly MaxExp: b+1 wraps"),
+ "C06-r4m1": ("divRecursive no longer clears the quotient slice", "Decimal-level Quo by a divisor of >= 100 words into a receiver whose buffer is reused (dirty)"),
+ "C06-r4m2": ("uquo shortens an over-long dividend (divisors >= 100 words) with a sticky scan that skips the top dropped word", "kept part an exact multiple of the divisor, only the top dropped word non-zero"),
+ "C07-r4m1": ("add10VV assembly tail loop: carry-in added after the hardware-carry test without a second test", "a word pair in the n%4 tail summing to exactly 2^64-1 with a carry coming in"),
+ "C07-r4m2": ("sub10VW assembly compares source and destination pointers with CMPL (32 bits)", "distinct vectors whose addresses agree in their low 32 bits (4 GiB apart): the copy of the untouched tail is skipped"),
+ "C08-r4m1": ("usub computes the difference into a pooled temporary that is then put back into the pool", "in-place Sub with a temporary of >= 40 words; the receiver's mantissa is overwritten by the next pool user"),
+ "C08-r4m2": ("Int converts in place (new decToNatScratch) and intMant returns x.mant without a copy when no shift is needed", "x with exp == 19*len(mant) and >= 2 words: x.Int() leaves x with an all-zero mantissa"),
+ "C09-r4m1": ("Int converts in place and intMant no longer copies in the no-shift case", "integers whose digit count is a multiple of 19 (>= 38) stored with all words: the operand of Int is zeroed"),
+ "C09-r4m2": ("log10_2 constant truncated to 11 digits", "SetFloat into a precision-0 receiver at big.Float precisions 579517, 904664, ... bits (superseded by the F-31 repair, which removed the constant from that path; confirmed against revision 50f6a30)"),
+ "C10-r4m1": ("dec.sqr alias guard kept below the Karatsuba threshold only", "z.Mul(z, z) with >= 50 words into a receiver buffer of >= 6k words left by an earlier product"),
+ "C10-r4m2": ("divRecursive no longer clears the quotient slice", "divisor >= 100 words, receiver buffer reused with stale words"),
+ "C11-r4m1": ("convertWords splits base-10 conversion in two halves (second in a goroutine) from 2^14 words, split point off by the spare byte", "mantissa of >= 16384 words (311 000 digits): an invented 0 mid-mantissa, last digit dropped"),
+ "C11-r4m2": ("dec.scan stages digit groups beyond 2^14 words and copies from the reallocated array", "literal longer than 311 400 digits into a receiver without a buffer that large"),
+ "C12-r4m1": ("scan's exact-scaling window for positive p exponents narrowed to 4*prec+L+64", "mantissa divisible by 5^k with a large positive p exponent"),
+ "C12-r4m2": ("scanExponent accumulates the exponent itself and rejects -2^63", "exponent field -9223372036854775808 (valid int64) with a zero mantissa or a p exponent"),
+ "C13-r4m1": ("'f' rounding at the leading digit computes 2+0.mant with at most 76 digits", "'f', position at x's leading digit, ToNearestEven, mantissa 5, three zero words, then a tail: rounded twice"),
+ "C13-r4m2": ("writeMultiple writes padding in 128-byte chunks and drops the last full chunk", "Format with a width that needs exactly 128, 256, ... padding bytes"),
+ "C14-r4m1": ("decToNat sizes its result with digits*100000/30103", "integers of exactly 32675, 65350, 92881, ... digits close to 10^d (all nines): top word dropped"),
+ "C14-r4m2": ("SetInt digit estimate bits*3010299956/10^10+1", "big.Int of 608255 bits or more close to 2^b: most significant decimal word dropped"),
+ "C15-r4m1": ("SetFloat exact-path bound replaced by ceil(prec*log2 10)+64", "c*2^s*10^v with v > 64 (superseded: the bound it narrowed was itself too narrow, F-26; no longer applies)"),
+ "C15-r4m2": ("Float64's intermediate big.Float inherits the Decimal's rounding mode", "directed mode in x and x within 2^-10 ulp of a float64 midpoint"),
+ "C16-r4m1": ("Cmp fast path for equal precision <= 19 and equal exponent compares mant[0] only", "a value whose mantissa carries extra zero words (decoded from a gob payload with zero words appended)"),
+ "C16-r4m2": ("Cmp same-shape loop decides by the sign of int64(x-y)", "equal shape, first differing word pair at least 2^63 apart"),
+ "C17-r4m1": ("GobDecode adopts the parsed words and also puts them into the buffer pool", "decode into a fresh variable, then any pool user (multi-word Quo) on other variables, then look at the decoded value again"),
+ "C17-r4m2": ("GobDecode copies only the words that fit the receiver's buffer before rounding", "receiver with precision > 0 and a mid-sized buffer, payload longer than it with a zero run down to the cut and something below"),
+ "C18-r4m1": ("Sqrt's constants three and oneHalf created lazily without sync.Once", "the first Sqrt calls of the process overlapping"),
+ "C18-r4m2": ("a package-level spare slot in front of the buffer pool for scratch of >= 4096 words", "two concurrent operations on operands of 26000+ digits"),
+ "C19-r4m1": ("the contexts' recover helper type-switches without a default and swallows non-error panic values", "a string panic (rounding under an out-of-range mode) inside a context operation"),
+ "C19-r4m2": ("FMA sizes the exact product as 2*max(x.prec, y.prec) in uint32", "an operand precision just above 2^31: the product is rounded to a handful of digits"),
+ "C20-r4m1": ("SetBitsExp folds the low words of long slices into a sticky bit computed one digit short", "slice >= 8 words longer than the precision needs, highest dropped word d*10^18, everything else below zero, round-up mode"),
+ "C20-r4m2": ("SetBitsExp clamps the raw exponent to +-2^32 instead of +-2^62", "slice of 113 million words (leading zeros worth more than 2^31 digits) with an exponent above 2^32"),
 }
 def main():
     want = sys.argv[1:]
